@@ -68,7 +68,42 @@ class Ctx:
     def ok(self, rule, construct, what, detail="", loc=None):
         self.obs.append(Ob(rule, construct, what, OK, detail, loc=loc))
 
+    # A finding is a VIOLATION when it is *pointed*: the function it is anchored in still has its confirmed form, or differs from it
+    # by at most ALIGN_MAX canonical lines (a slip: a wrong variable, a dropped call, a changed condition).  When the function was
+    # restructured beyond that, the rules -- which read the confirmed form -- can no longer be aligned with it: what they report
+    # there is recorded as *undecided* (exit 2, the function has to be re-confirmed), never as a violation.  Rules that do not read
+    # the shape of the function at all (ROBUST_RULES) are exempt.
+    ALIGN_MAX = 8
+    ROBUST_RULES = ("R20",)
+
+    def restructured(self, construct):
+        """canonical line count by which the function a construct is anchored in differs from its confirmed form, if that is more
+        than ALIGN_MAX (else None).  A construct in an unchanged function is judged by the smallest change anywhere: if every
+        change on the tree is a restructuring, a finding elsewhere is most likely its echo."""
+        changed = getattr(self.repo, "changed", None) or {}
+        if not changed:
+            return None
+        c = construct.split("->")[0]
+        best = None
+        for q, n in changed.items():
+            q0 = q.split("#")[0]
+            if c == q0 or c.startswith(q0 + ".") or c.startswith(q0 + "->"):
+                if best is None or len(q0) > len(best[0]):
+                    best = (q0, n)
+        if best is not None:
+            return best if best[1] > self.ALIGN_MAX else None
+        smallest = min(changed.items(), key=lambda kv: kv[1])
+        return smallest if smallest[1] > self.ALIGN_MAX else None
+
     def bad(self, rule, construct, what, detail="", key_detail=None, loc=None):
+        r = None if rule.upper().startswith(self.ROBUST_RULES) else self.restructured(construct)
+        if r is not None and Ob(rule, construct, what, BAD, detail, key_detail=key_detail).key in known_keys(self.prop):
+            r = None            # a listed finding of the confirmed tree is what it is, whatever else changed
+        if r is not None:
+            ob = Ob(rule, construct, what, UNKNOWN, f"{r[0]} differs from its confirmed form by {r[1]} canonical lines (more than {self.ALIGN_MAX}): the rule "
+                    f"cannot be aligned with the restructured function; it reads: {detail}"[:600], key_detail=key_detail, required=True, loc=loc)
+            self.obs.append(ob)
+            return
         self.obs.append(Ob(rule, construct, what, BAD, detail, key_detail=key_detail, loc=loc))
 
     def unknown(self, rule, construct, what, detail="", required=True, loc=None):
@@ -177,6 +212,8 @@ def write_evidence(prop, tier, seed, ctx, meta, wall, n_viol, selftest=None, ext
         "analysed": ctx.analysed,
         "modules": {ctx.repo.paths[m]: ctx.repo.digest[m] for m in sorted(ctx.repo.modules)},
         "read_in_reference_spelling": {m: q for m, q in sorted(getattr(ctx.repo, "restored", {}).items())},
+        "functions_differing_from_confirmed_form": dict(sorted(getattr(ctx.repo, "changed", {}).items())),
+        "alignment_rule": f"a finding anchored in a function that differs from its confirmed form by more than {Ctx.ALIGN_MAX} canonical lines is recorded as undecided, not as a violation",
         "trusted_base": meta.get("trusted_base", []) + ctx.trusted,
         "checker_cmd": f"./check {prop} --tier {tier}",
         "exhaustive": bool(meta.get("exhaustive", False)),
